@@ -2,7 +2,7 @@
 """Self-test of the checkers (DESIGN section 8).
 
 Each case in cases/*.py (a list CASES of dicts) describes a small edit of coset:
-  id, prop (or props), edits=[(file, old, new)], expect='fire'|'quiet', rule (optional: a rule name that
+  id, prop (or props), edits=[(file, old, new)], expect='fire'|'quiet'|'limit' (documented false alarm), rule (optional: a rule name that
   must be among the failed obligations), note.
 The edit is applied to a scratch copy of /repo (outside /repo and /verif, removed afterwards), the same
 driver analyses the copy, and the verdict is compared with `expect`.
@@ -100,6 +100,11 @@ def run_case(case, args):
                     if case["names"] not in r.stdout:
                         res["ok"] = False
                         res["msgs"].append("%s: report does not name %r" % (prop, case["names"]))
+            elif case["expect"] == "limit":
+                # a documented limit of the analyses (DESIGN 11.6): behaviour-preserving code on which some check still raises an
+                # alarm.  Listed on every run, never hidden; it does not fail the self-test, and it is reported when it goes away.
+                if fired or r.returncode != 0:
+                    res.setdefault("limit_fired", []).append(prop)
             else:
                 if fired or r.returncode != 0:
                     res["ok"] = False
@@ -147,6 +152,11 @@ def main():
         results = list(ex.map(lambda c: run_case(c, args), cases))
     bad = 0
     for r in results:
+        if r["expect"] == "limit" and r["ok"]:
+            lf = r.get("limit_fired", [])
+            print("%-4s %-5s %-60s %s" % ("LIM" if lf else "ok", r["expect"], r["id"],
+                                          ("known false alarm of " + ",".join(lf)) if lf else "no check fires any more: make it a `quiet` case"))
+            continue
         print("%-4s %-5s %-60s %s" % ("ok" if r["ok"] else "BAD", r["expect"], r["id"], ",".join(r["props"])))
         if not r["ok"] or args.verbose:
             for m in r["msgs"]:
